@@ -9,6 +9,7 @@ import (
 	"sort"
 	"strconv"
 	"strings"
+	"sync"
 	"time"
 
 	"verifsim/resp"
@@ -120,6 +121,10 @@ type Server struct {
 		Requests int
 		Errors   int
 	}
+
+	RestoreState // restore.go: registry of restorable payload bodies, accepted RESTOREs
+
+	acceptMu sync.Mutex // Accept is called by the dialling goroutines, possibly concurrently
 }
 
 func NewServer(addr string) *Server {
@@ -145,7 +150,9 @@ func (s *Server) LocalSession(name string) *Session {
 func (s *Server) Accept(c *simnet.SimConn) {
 	sess := &Session{Conn: c}
 	c.Owner = sess
+	s.acceptMu.Lock()
 	s.Sessions = append(s.Sessions, sess)
+	s.acceptMu.Unlock()
 }
 
 func nowMs() int64 { return time.Now().UnixMilli() }
